@@ -60,6 +60,17 @@ CLAIMED["C16"] = dict(
     note="Trusted: CrossHair, z3; decimal rendering of the counters is opaque (tokens recording value and format spec), "
          "Python's str(int) trusted. Outside: identities containing ';', clock going backwards, counter beyond 2^32.")
 
+CLAIMED["C12"] = dict(
+    level="model_checking", technique=E1, design="6/C12",
+    text="The real decorate_answer is executed on request/answer pairs built through the public constructors with "
+         "Application-ID, Hop-by-Hop, End-to-End (request and answer), Result-Code (all 2^32 values that are not "
+         "multiples of 1000), the answer's incoming E bit and the Session-Id bytes as solver variables; CrossHair closes "
+         "every path. Oracle: copy rule, rc//1000 in {3,4,5}, no Result-Code next to Experimental-Result, and the dumped "
+         "answer equals the reference RFC 6733 encoding of its content (so Message Length matches).",
+    note="Trusted: CrossHair, z3, reference encoder. Bounds: Session-Id length grid (every residue), class pairs generic, "
+         "CER/CEA, ULR/ULA (+STR/STA, plain messages in thorough). Outside: answers lacking a Session-Id AVP for a request "
+         "that has one; multiples of 1000.")
+
 PENDING_REASON = "check not built yet in this session (planned in DESIGN.md section 6); no claim is made"
 NOT_APPLICABLE = {}
 
